@@ -300,10 +300,17 @@ def run_case(case, env):
                 plans = [(tuple(step["fault"]["plan"]), None)]
             elif mode == "error":
                 cands = error_candidates(golden, sb)
+                muts = [c for c in cands if c.is_mutation() or c.name in ("renameat", "rename", "renameat2", "fchmod", "mkdir")]
+                if muts and step["fault"]["pick"] % 10 < 7:
+                    cands = muts       # most hard errors land on the calls that change the output tree
                 if cands:
                     c = cands[step["fault"]["pick"] % len(cands)]
                     errs = ERRNOS_BY_CALL[c.name]
-                    plans = [((c.idx, "ERR", errs[step["fault"]["errpick"] % len(errs)]), c)]
+                    if c.name == "write" and (c.length or 0) > 2 and step["fault"]["errpick"] % 3 == 0:
+                        # the disk fills up in the middle: part of the data is accepted, the continuation fails
+                        plans = [([(c.idx, "SHORT_WRITE", max(1, c.length // 3)), (c.idx + 1, "ERR", "ENOSPC")], c)]
+                    else:
+                        plans = [((c.idx, "ERR", errs[step["fault"]["errpick"] % len(errs)]), c)]
             elif mode == "benign":
                 used = set()
                 fl = []
